@@ -2,7 +2,7 @@ from . import cli, streams_tables, streams_par
 
 ID = 'C07'
 PROPS_MODULE = ['Refine.Props.C07', 'Refine.Props.C07Gather']
-STREAMS = [streams_tables.PART, streams_par.GATHER_NODE, streams_par.GATHER_CELL,
+STREAMS = [streams_tables.PART, streams_par.GATHER_NODE, streams_par.GATHER_CELL, streams_par.GATHER_FILE,
            cli.NPINDEP, cli.CONVERT_MPI, cli.DISTANCE_MPI, cli.INTERP_MPI]
 EXPLANATION = ('Proved over the macros generated from ref_part.h: implicit block partition is a partition of [0,N) '
                'into np contiguous blocks whose sizes differ by at most one, and ref_part_implicit returns the unique '
@@ -16,7 +16,7 @@ EXPLANATION = ('Proved over the macros generated from ref_part.h: implicit block
                '(gather_node_fails_iff); chunk >= 1 iff reduce_byte_limit <= 0 or >= 32, otherwise the loop never '
                'advances (chunk_positive, gather_node_hang); the owner rule of ref_cell_part makes ref_gather_cell '
                'emit every cell of the global mesh exactly once with its tag, for every partition (gather_cell_once). '
-               'Tie: the real static ref_gather_node / ref_gather_cell under mpiexec at np = 1,2,3,4,5,8 against '
+               'Tie: the real static ref_gather_node / ref_gather_cell and ref_gather_by_extension (.meshb) under mpiexec at np = 1,2,3,4,5,8 against '
                'the model on generated worlds. End to end (no model side): translate / distance / interpolate / '
                'format conversion with ref and refmpi, outputs compared with the serial run (vertices in the same '
                'order, cell multisets with tags, fields; distance and data movement exactly, interpolation to 1e-12).')
